@@ -22,7 +22,7 @@ ASSUMPTIONS = ['"terminates" is decided as bounded progress on logical measures 
                'well-formed first connection = identification line ending in LF, then zero or more well-framed DEBUG/IGNORE packets, then a well-framed packet of type 20 that the strict decoder accepts (exact trailer)',
                'moduli and keys in generated replies are at most 16384 bits']
 MANIFEST = {
-    'text': 'Fault enumeration: every (connection, message, operator) triple of the stated operator set is injected by a scripted peer into six valid transcripts and the real CLI is observed from outside (status, output) and inside (recording sockets: timeout in force and outcome of every blocking call).',
+    'text': 'Fault enumeration: every (connection, message, operator) triple of the stated operator set is injected by a scripted peer into nine valid transcripts (minimal, host-key probes, group exchange, certificates, SSH-1, client role, rate check, several host-key types with group exchange, a large KEXINIT) and the real CLI is observed from outside (status, output) and inside (recording sockets: timeout in force and outcome of every blocking call).',
     'note': 'Trusts the strict decoder in harness/wire.py to classify what was actually sent on the first connection; CPU and timeout counts are logical measures from rusage and the in-process socket monitor.',
     'technique': 'fault injection at every message/field/offset with a boundary monitor (peer log, exit status, report) and an in-process socket monitor (bounded-progress oracle)',
 }
